@@ -163,6 +163,7 @@ func recordMain(args []string) {
 	n := fs.Int("n", 3000, "number of random events")
 	seed := fs.Int64("seed", 1, "seed")
 	corpus := fs.String("corpus", "", "testdata directory of the repository (its expressions are recorded too)")
+	mode := fs.String("mode", "general", "general | sort | unicode")
 	fs.Parse(args)
 	f, err := os.Create(*outPath)
 	if err != nil {
@@ -231,6 +232,54 @@ func recordMain(args []string) {
 		}
 	}
 	g := &gen{rand.New(rand.NewSource(*seed))}
+	switch *mode {
+	case "sort":
+		// arrays far beyond what TLC enumerates (13..200 elements, many ties)
+		for i := 0; i < *n; i++ {
+			ln := 13 + g.r.Intn(188)
+			arr := make([]any, ln)
+			strKeys := g.r.Intn(2) == 0
+			mod := 1 + g.r.Intn(7)
+			for k := range arr {
+				var key any = json.Number(fmt.Sprint(g.r.Intn(mod) - 2))
+				if strKeys {
+					key = g.pick("a", "é", "b", "aa", "😀", "", "B", "€")[0:] + fmt.Sprint(g.r.Intn(mod) % 3)
+				}
+				arr[k] = map[string]any{"k": key, "p": json.Number(fmt.Sprint(k))}
+			}
+			doc := map[string]any{"x": arr}
+			e := g.pick("sort_by(x, &k)[*].p", "sort_by(x, &k)", "max_by(x, &k).k", "min_by(x, &k).k", "sort(x[*].k)", "max(x[*].k)",
+				"min(x[*].k)", "reverse(sort_by(x, &k))[*].p", "sort_by(x, &p)[0]", "sort_by(sort_by(x, &p), &k)[*].p", "length(group_by(x, &to_string(k)))",
+				"sort_by(x[?p > `5`], &k)[*].p", "sort_by(x, &k)[::2][*].p", "x[*].k | sort(@) | [0]")
+			emit(fmt.Sprintf("sort%d.%d", *seed, i), e, doc)
+		}
+		fmt.Printf("{\"written\":%d,\"skipped\":%d,\"panics\":%d}\n", written, skipped, panics)
+		return
+	case "unicode":
+		alpha := []string{"a", "b", "é", "€", "😀", "\u0301", "\ufffd", "Z", " ", "ß", "\U00010000", "0"}
+		rs := func() string {
+			n := g.r.Intn(8)
+			s := ""
+			for i := 0; i < n; i++ {
+				s += alpha[g.r.Intn(len(alpha))]
+			}
+			return s
+		}
+		q := func(s string) string { return "'" + s + "'" }
+		for i := 0; i < *n; i++ {
+			doc := map[string]any{"s": rs(), "t": rs(), "a": []any{rs(), rs(), rs()}}
+			c := alpha[g.r.Intn(len(alpha))]
+			k := fmt.Sprint(g.r.Intn(9) - 2)
+			e := g.pick("length(s)", "reverse(s)", "s[::-1]", "s["+k+":]", "s[:"+k+"]", "s[::"+g.pick("2", "-2", "3")+"]", "find_first(s, "+q(c)+")",
+				"find_last(s, "+q(c)+")", "find_first(s, "+q(c)+", `"+k+"`)", "find_last(s, t)", "pad_left(s, `"+k+"`, "+q(c)+")", "pad_right(s, `7`)",
+				"split(s, "+q(c)+")", "split(s, '')", "split(s, '', `"+k+"`)", "sort(a)", "max(a)", "min(a)", "join(s, a)", "replace(s, "+q(c)+", t)",
+				"starts_with(s, "+q(c)+")", "ends_with(s, t)", "contains(s, "+q(c)+")", "trim(s, "+q(c)+")", "sort_by(a, &@)", "s == t", "[s, t] | sort(@)",
+				"replace(s, "+q(c)+", "+q(c+c)+", `"+k+"`)", "a[*].length(@)", "map(&reverse(@), a)")
+			emit(fmt.Sprintf("uni%d.%d", *seed, i), e, doc)
+		}
+		fmt.Printf("{\"written\":%d,\"skipped\":%d,\"panics\":%d}\n", written, skipped, panics)
+		return
+	}
 	for i := 0; i < *n; i++ {
 		doc := g.value(3)
 		if g.r.Intn(3) > 0 {
